@@ -346,6 +346,50 @@ def m_dry(m):
     return m.get("dry", "0:0").split(":")
 
 
+def printer_level(ctx, model, seeds=None):
+    """API level: the REAL fclones::log_script on adversarial arrival orders (harness/src/bin/dx.rs: 1500-3000 groups on a
+    4-thread rayon pool; one group delayed while > 1024 later ones overtake it, two delayed, reversed, shuffled), checked
+    against theorem C11_printer_order: every group exactly once, in index order, count / bytes = all commands; the extracted
+    log_loop is run on the same arrival SHAPES (200 groups) and must print the index order too."""
+    core.build_harness(["dx"])
+    probe = os.path.join(ctx.scratch, "dx_probe.bin")
+    with open(probe, "wb") as f:
+        f.write(b"1234567")
+    seeds = seeds or [ctx.rng.next() % (1 << 62) for _ in range(ctx.pick(2, 12))]
+    for rep, seed in enumerate(seeds):
+        p = core.run([os.path.join(core.BIN, "dx"), "printer", probe, str(seed)], timeout=120)
+        if p.returncode != 0:
+            ctx.violation({"kind": "dx_failed"}, "dx printer exited %d: %s" % (p.returncode, p.stderr[-400:]), {"seed": seed}, found_input=False)
+            return
+        for line in p.stdout.strip().split("\n"):
+            kv = dict(t.split("=", 1) for t in line.split(" "))
+            ctx.count()
+            ctx.distinct(("printer", seed, kv["pattern"]), True)
+            ctx.bump("printer_pattern", kv["pattern"])
+            ctx.bump("printer_groups", int(kv["n"]) // 500 * 500)
+            ok = (kv["order"] == "ok" and kv["missing"] == "0" and kv["dup"] == "0" and kv["printed"] == kv["cmds"] and
+                  kv["count"] == kv["cmds"] and int(kv["bytes"]) == int(kv["cmds"]) * int(kv["len"]))
+            if not ok:
+                ctx.violation({"kind": "printer_drops_or_reorders_groups"},
+                              "log_script on %s groups, arrival pattern %s: %s groups never printed, %s printed twice, first disorder at %s "
+                              "(pos:got:want), summary counts %s of %s commands" % (kv["n"], kv["pattern"], kv["missing"], kv["dup"], kv["order"],
+                                                                                kv["count"], kv["cmds"]),
+                              {"replay_how": ".cache/target/debug/dx printer <any existing file> %d" % seed, "dx_line": line,
+                               "kind": "printer", "index": rep, "scenario_seed": seed}, found_input=True)
+    # the model on the same arrival shapes
+    n = 200
+    rng = ctx.rng.fork()
+    shapes = {"slow0": list(range(1, n)) + [0], "slowmid": [i for i in range(n) if i != 77] + [77],
+              "slowtwo": [i for i in range(n) if i not in (1, 77)] + [77, 1], "reversed": list(range(n - 1, -1, -1)),
+              "shuffled": rng.shuffle(list(range(n)))}
+    outs = core.run_lines(model, ["printer n=%d arrival=%s" % (n, ",".join(map(str, a))) for a in shapes.values()])
+    for name, o in zip(shapes, outs):
+        ctx.count()
+        if not o.startswith("order=ok printed=%d" % n):
+            ctx.violation({"kind": "model_printer_out_of_order"}, "extracted log_loop on arrival shape %s: %s" % (name, o), {"shape": name},
+                          found_input=False)
+
+
 def run(ctx):
     ctx.rule = ("case = (generated tree, recorded group options, report format, operation, options); non-trivial = the dry run prints at "
                 "least one command; distinct = distinct scenario seed.  Directed: 40-70 groups (printer order), N6, every shell-hostile "
@@ -360,6 +404,11 @@ def run(ctx):
     core.build_fclones()
     model = core.build_model("X") if os.path.exists(os.path.join(core.COQ, "Extract_X.v")) else None
     cases = []
+    if ctx.replay and json.load(open(ctx.replay)).get("kind") == "printer":
+        printer_level(ctx, model, seeds=[json.load(open(ctx.replay))["scenario_seed"]])
+        return
+    if not ctx.replay:
+        printer_level(ctx, model)
     if ctx.replay:
         rp = json.load(open(ctx.replay))
         cases.append((rp["kind"], rp.get("index", 0), rp["scenario_seed"]))
